@@ -40,6 +40,7 @@ Hash64    g_event_hash, g_sched_sig, g_api_hash;
 uint64_t  g_probe[PR__COUNT];
 uint64_t  g_clock_advanced_ns = 0;
 void (*g_result_extra)(JsonOut& o) = nullptr;
+const char* (*g_crash_context)() = nullptr;
 
 const char* const probe_names[PR__COUNT] = {
   "delayed_freeing_observed", "delayed_block_reinserted", "tf_collect_cas_retry", "free_mt_cas_retry",
@@ -61,7 +62,7 @@ const char* const probe_names[PR__COUNT] = {
 // ---------------------------------------------------------------------------------
 enum VState { VS_UNUSED = 0, VS_RUNNABLE, VS_BLOCKED, VS_DONE };
 enum BlockKind { BK_NONE = 0, BK_LOCK, BK_JOIN, BK_BARRIER };
-#define MAX_VT 16
+#define MAX_VT 64
 
 struct VThread {
   int       idx;
@@ -609,10 +610,10 @@ static void crash_handler(int sig, siginfo_t* si, void* ctx) {
   char d[256] = ""; char b[600];
   if (sig == SIGSEGV || sig == SIGBUS) {
     os_describe_addr(si->si_addr, d, sizeof d);
-    snprintf(b, sizeof b, "%s at %p (%s)", sig == SIGSEGV ? "SIGSEGV" : "SIGBUS", si->si_addr, d);
+    snprintf(b, sizeof b, "%s at %p (%s)%s", sig == SIGSEGV ? "SIGSEGV" : "SIGBUS", si->si_addr, d, g_crash_context ? g_crash_context() : "");
     write_result_and_exit("violation", "crash", b, 0);
   }
-  snprintf(b, sizeof b, "signal %d (%s) last message: %.300s", sig, sig == SIGABRT ? "abort" : "fatal", g_last_msg);
+  snprintf(b, sizeof b, "signal %d (%s)%s last message: %.300s", sig, sig == SIGABRT ? "abort" : "fatal", g_crash_context ? g_crash_context() : "", g_last_msg);
   write_result_and_exit("violation", sig == SIGABRT ? "abort" : "crash", b, 0);
 }
 
